@@ -1,7 +1,7 @@
 #!/bin/bash
 # usage: tools/run_all.sh [tier] [seed]   — runs every claimed check and prints one summary line each
 TIER=${1:-quick}; SEED=${2:-1}
-cd /verif
+cd "$(dirname "$(realpath "$0")")/.."
 for c in $(python3 -c "import json; print(' '.join(x['property_id'] for x in json.load(open('MANIFEST.json'))['checks']))"); do
   t0=$(date +%s)
   out=$(VERIF_SEED=$SEED ./check $c --tier $TIER 2>&1); rc=$?
